@@ -426,6 +426,7 @@ def translator_validate(mod, cfg, spec, T, p, st):
     # cancellation in a sum makes the float result inexact relative to ITSELF; compare relative to the largest magnitude in play
     big = max([abs(float(b)) for b in con_leaves if isinstance(b, (int, float)) and b == b and abs(b) != float("inf")]
               + [abs(float(v)) for v in Vc.values()] + [0.0])
+    path_scale = max([_numeral_scale(core.term(a)) for a in sym_leaves if core.is_sym(a)] + [1.0])
     for a, b in zip(sym_leaves, con_leaves):
         if not core.is_sym(a):
             continue
@@ -441,8 +442,8 @@ def translator_validate(mod, cfg, spec, T, p, st):
         if isinstance(b, float) and (b != b or abs(b) == float("inf")):
             continue
         # cancellation against a large constant (an affine offset expressed in a tiny unit) loses digits in floats: allow eps x the
-        # product of the magnitudes of the numerals in the term (translator validation guards the proxies, it is not a deciding step)
-        if abs(exact - float(b)) > 1e-9 * (abs(exact) + abs(float(b)) + big) + 1e-12 + 1e-15 * _numeral_scale(e):
+        # product of the magnitudes of the numerals in the terms of this path (translator validation guards the proxies, it is not a deciding step)
+        if abs(exact - float(b)) > 1e-9 * (abs(exact) + abs(float(b)) + big) + 1e-12 + 1e-15 * path_scale:
             st.tv_bad += 1
             st.errors.append("translator validation mismatch cfg=%s sym=%r real=%r" % (json.dumps(cfg)[:200], exact, b))
 
